@@ -35,6 +35,9 @@ MIN_NONTRIVIAL = {"quick": 200, "thorough": 3000}
 VERSIONS = {"quick": [6, 8, 10], "thorough": [6, 7, 8, 9, 10]}
 
 
+EXTRA_ADDR = bytes([0xC3]) * 32
+EXTRA_ASSET = 424242
+EXTRA_APP = 434343
 MORE_TUPLES = [["tuple", [["bool"], ["uint", 8], ["uint", 8]]], ["tuple", [["bool"]]], ["tuple", [["string"], ["uint", 64], ["bool"]]], ["tuple", [["string"]]], ["tuple", []]]
 
 
@@ -68,6 +71,10 @@ def build_program(pt, case):
                 args.append(pt.Int(1))
                 continue
             t = v["type"] if f != "bad-txn-type" else ("pay" if v["type"] != "pay" else "axfer")
+            if f == "not-a-txn-type":
+                # a value that is an EnumInt but not a transaction type
+                args.append({pt.TxnField.type_enum: case["bad_enum"] == "unknown" and pt.TxnType.Unknown or getattr(pt.OnComplete, case["bad_enum"])})
+                continue
             enum = {"pay": pt.TxnType.Payment, "keyreg": pt.TxnType.KeyRegistration, "acfg": pt.TxnType.AssetConfig, "axfer": pt.TxnType.AssetTransfer,
                     "afrz": pt.TxnType.AssetFreeze, "appl": pt.TxnType.ApplicationCall}[t]
             d = {pt.TxnField.type_enum: enum}
@@ -85,6 +92,11 @@ def build_program(pt, case):
     extra = None
     if case.get("extra"):
         extra = {pt.TxnField.fee: pt.Int(0), pt.TxnField.note: pt.Bytes(b"extra")}
+        if case.get("extra") == "foreign":
+            # the caller adds further foreign references of its own: they must come after the ones the arguments need
+            extra[pt.TxnField.accounts] = [pt.Bytes(EXTRA_ADDR)]
+            extra[pt.TxnField.assets] = [pt.Int(EXTRA_ASSET)]
+            extra[pt.TxnField.applications] = [pt.Int(EXTRA_APP)]
     app_id = pt.Int(case["app_id"]) if case.get("app_id") is not None else None
     kw = dict(app_id=app_id, method_signature=sig_of(m), args=args, extra_fields=extra)
     if case.get("execute"):
@@ -188,6 +200,9 @@ def callee_view(case, group):
     if case.get("extra"):
         if call.get("Note") != b"extra" or call.get("Fee") != 0:
             probs.append("extra_fields were not set on the application call (Note=%r Fee=%r)" % (call.get("Note"), call.get("Fee")))
+        if case.get("extra") == "foreign":
+            if EXTRA_ADDR not in call.get("Accounts", []) or EXTRA_ASSET not in call.get("Assets", []) or EXTRA_APP not in call.get("Applications", []):
+                probs.append("extra_fields' foreign references are missing from the call (Accounts=%s Assets=%s Applications=%s)" % ([a.hex()[:8] for a in call.get("Accounts", [])], call.get("Assets"), call.get("Applications")))
     return probs
 
 
@@ -294,7 +309,7 @@ def case_strategy(draw, tier):
     m = {"name": draw(st.sampled_from(["call_me", "f", "transfer"])), "params": params}
     if draw(st.booleans()):
         m["ret"] = draw(st.sampled_from(SMALL))
-    case = {"method": m, "values": values, "forms": forms, "app_id": draw(st.sampled_from([2002, 2002, 9009, None])), "extra": draw(st.booleans()), "execute": draw(st.booleans())}
+    case = {"method": m, "values": values, "forms": forms, "app_id": draw(st.sampled_from([2002, 2002, 9009, None])), "extra": draw(st.sampled_from([False, True, "foreign" if (nacc < 3 and nref <= 4) else True])), "execute": draw(st.booleans())}
     # ill-typed variants
     w = draw(st.integers(0, 9))
     abi_i = [i for i, p in enumerate(params) if p["k"] == "abi"]
@@ -316,6 +331,11 @@ def case_strategy(draw, tier):
         if values[i]["type"] in ("pay", "axfer") or True:
             case["forms"] = forms[:i] + ["bad-txn-type"] + forms[i + 1:]
             case["ill_typed"] = "transaction argument %d has the wrong type" % i
+    elif w == 4 and [i for i, p in enumerate(params) if p["k"] == "txn" and p["t"] == "txn"]:
+        i = [i for i, p in enumerate(params) if p["k"] == "txn" and p["t"] == "txn"][0]
+        case["forms"] = forms[:i] + ["not-a-txn-type"] + forms[i + 1:]
+        case["bad_enum"] = draw(st.sampled_from(["unknown", "NoOp", "OptIn", "DeleteApplication"]))
+        case["ill_typed"] = "generic transaction argument %d carries type_enum=%s, which is not a transaction type" % (i, case["bad_enum"])
     elif w == 2 and n >= 1:
         case["drop_last_arg"] = True
         case["ill_typed"] = "one argument too few"
